@@ -22,13 +22,18 @@ ChangeLists == { <<Ch("add", "a1", <<"v2">>)>>, <<Ch("add", "a3", <<"v1", "v2">>
                  <<Ch("replace", "a1", <<"v3">>)>>,
                  <<Ch("add", "a2", <<"v1">>), Ch("delete", "a2", <<>>)>>,
                  <<Ch("replace", "a2", <<"v1">>), Ch("add", "a2", <<"v2">>)>>,
-                 <<Ch("replace", "password", <<"q">>)>> }
+                 <<Ch("replace", "password", <<"q">>)>>,
+                 \* several changes of different attributes in one request, after a delete (slice positions shift)
+                 <<Ch("delete", "a1", <<>>), Ch("replace", "a2", <<"v3">>)>>,
+                 <<Ch("delete", "a2", <<>>), Ch("add", "password", <<"q">>), Ch("add", "a3", <<"v1">>)>>,
+                 <<Ch("add", "a3", <<"v2">>), Ch("delete", "a1", <<>>), Ch("replace", "password", <<"q">>)>> }
+TG1 == [s \in {"S1"} |-> <<Entry("t1", <<Attr("a1", <<"v1">>)>>), Entry("t2", <<>>)>>]
 \* the property only speaks of replace on entries that have the attribute: generate only those
 HasAttr(dn, n) == \E i \in Indices(users, dn) : IndexOfLast(users[i].attrs, n, Len(users[i].attrs)) > 0
 ReplaceOK(dn, chs) == Indices(users, dn) = {} \/ \A k \in 1..Len(chs) : chs[k].op = "replace" => HasAttr(dn, chs[k].name)
 
 VARIABLE hist
-vars20 == <<users, groups, allowAnon, reply, hist>>
+vars20 == <<users, groups, allowAnon, reply, tokenGroups, hist>>
 Ev(op, dn, as, chs, pw, b) == [op |-> op, dn |-> dn, attrs |-> as, chs |-> chs, pw |-> pw, b |-> b]
 
 Init20 == DirInit(InitUsers, InitGroups) /\ hist = <<>>
@@ -42,6 +47,8 @@ NextAll ==
      \/ SetUsers(<<>>) /\ hist' = Append(hist, Ev("setusers", "none", <<>>, <<>>, "", FALSE))
      \/ SetGroups(<<>>) /\ hist' = Append(hist, Ev("setgroups", "none", <<>>, <<>>, "", FALSE))
      \/ \E b \in BOOLEAN : SetAnon(b) /\ hist' = Append(hist, Ev("setanon", "", <<>>, <<>>, "", b))
+     \/ SetTokenGroups(TG1) /\ hist' = Append(hist, Ev("settokengroups", "tg1", <<>>, <<>>, "", FALSE))
+     \/ SetTokenGroups(<<>>) /\ hist' = Append(hist, Ev("settokengroups", "none", <<>>, <<>>, "", FALSE))
      \/ \E dn \in {"u1", "n1"}, pw \in {"p", "q", ""} : Bind(dn, pw) /\ hist' = Append(hist, Ev("bind", dn, <<>>, <<>>, pw, FALSE))
 NextBind ==
      \/ \E dn \in {"u1", "n1"}, as \in AddAttrsBind : Add(dn, as) /\ hist' = Append(hist, Ev("add", dn, as, <<>>, "", FALSE))
